@@ -133,6 +133,11 @@ def install_io(it: Interp, vfs: VFS) -> None:
         if isinstance(buffering, str) and encoding is None:      # open(path, mode, encoding) never happens; guard
             encoding, buffering = buffering, -1
         path = str(path) if isinstance(path, PathStub) else path
+        if not isinstance(mode, str) or set(mode) - set("rwxab+t") or sum(mode.count(c) for c in "rwxa") != 1 \
+                or ("t" in mode and "b" in mode) or len(set(mode)) != len(mode):
+            raise AbsRaise(f"ValueError: invalid mode: {mode!r}")
+        if "b" in mode and encoding is not None:
+            raise AbsRaise("ValueError: binary mode doesn't take an encoding argument")
         vfs.opens.append({"path": path, "mode": mode, "encoding": encoding})
         if "r" in mode and path not in vfs.files:
             raise AbsRaise(f"FileNotFoundError: {path}")
